@@ -236,6 +236,8 @@ func c05Run(c *fw.Ctx) {
 		// one local part in several domains (one mailbox under local naming, one verdict per domain)
 		{"u1@a.test", "u1@b.test", "u1@sub.a.test"},
 		{"u1@sub.a.test", "u1@b.test", "u1@a.test"},
+		// local parts that mean something to other mail systems: the verdict is the domain's
+		{"postmaster@a.test", "Postmaster@b.test", "abuse@sub.a.test", "root@B.test", "MAILER-DAEMON@a.test"},
 	}
 	sl := subsets(c05ListPool, 1)
 	for _, da := range []bool{true, false} {
